@@ -15,6 +15,7 @@
 //! metadata is not part of the text — the same text re-parsed after words were added to the dictionary.
 use harper_core::linting::{Lint, LintGroup, LintKind, Linter, Suggestion};
 use harper_core::{Dialect, Document, FatToken, FstDictionary, IgnoredLints, MergedDictionary, MutableDictionary, Punctuation, Span, TokenKind, WordMetadata};
+use harper_core::parsers::{Parser, PlainEnglish};
 use hv::common::*;
 use hv::gen;
 use serde_json::{json, Value};
@@ -238,6 +239,8 @@ struct Env {
     x_cases: usize,
     q_cases: usize,
     prepend_premise_broken: u64,
+    aligned_checked: u64,
+    aligned_broken: u64,
 }
 
 impl Env {
@@ -245,7 +248,7 @@ impl Env {
         let dict = FstDictionary::curated();
         let mut group = LintGroup::new_curated(dict.clone(), Dialect::American);
         group.set_all_rules_to(Some(true));
-        Env { dict, group, km: Default::default(), seen: Default::default(), collisions: 0, mirror_mismatch: 0, c_cases: 0, x_cases: 0, q_cases: 0, prepend_premise_broken: 0 }
+        Env { dict, group, km: Default::default(), seen: Default::default(), collisions: 0, mirror_mismatch: 0, c_cases: 0, x_cases: 0, q_cases: 0, prepend_premise_broken: 0, aligned_checked: 0, aligned_broken: 0 }
     }
     fn document(&self, text: &str, lang: &str) -> Document {
         if lang == "markdown" {
@@ -423,11 +426,14 @@ fn classify_only(phase: &str, l: &Lint, doc: &Document, ignored: &[(Lint, Docume
             let modelled = mirror(i, d).1 == mirror(l, doc).1;
             let flat = |n: &(Vec<FatToken>, Vec<FatToken>, Vec<FatToken>)| n.0.iter().chain(n.1.iter()).chain(n.2.iter()).cloned().collect::<Vec<_>>();
             let same_flat = flat(&ni) == flat(&nl);
-            let diag = json!({"lint_len": len, "before_equal": ni.0 == nl.0, "flagged_equal": ni.1 == nl.1, "after_equal": ni.2 == nl.2,
+            // C14_flat_collision_iff: same context although the neighbourhoods differ <=> same report, same flat list and the
+            // list is cut differently (number of tokens before, number of flagged tokens)
+            let split_differs = (ni.0.len(), ni.1.len()) != (nl.0.len(), nl.1.len());
+            let diag = json!({"split_differs": split_differs, "lint_len": len, "before_equal": ni.0 == nl.0, "flagged_equal": ni.1 == nl.1, "after_equal": ni.2 == nl.2,
                               "lint_start": l.span.start, "ignored_start": i.span.start, "same_context_in_the_model": modelled, "same_flat_list": same_flat});
             let (class, what) = if !modelled {
                 ("only_other", format!("{phase}: lint {:?} {:?} is hidden together with the ignored lint {:?} although the model of LintContext::from_lint gives them different contexts", l.span, text_of(doc, l.span), i.span))
-            } else if same_flat {
+            } else if same_flat && split_differs {
                 ("only_flattened", format!("{phase}: lint {:?} {:?} and the ignored lint {:?} {:?} have different tokens before / under / after the flagged text, but prequel ++ problem ++ sequel is the same flat token list (the tokens are split differently between the three windows); the context does not record the window boundaries, so the second is hidden as well", l.span, text_of(doc, l.span), i.span, text_of(d, i.span)))
             } else {
                 ("only_other", format!("{phase}: lint {:?} {:?} differs from every ignored lint in its neighbourhood, yet it is hidden (same stored context as ignored {:?})", l.span, text_of(doc, l.span), i.span))
@@ -657,7 +663,7 @@ fn stable_phase(rep: &mut Report, env: &mut Env, ig: &IgnoredLints, lints: &[Lin
         };
         case_x(rep, env, l, doc, l3, doc3);
         if neighbourhood(l, doc) != neighbourhood(l3, doc3) {
-            rep.count("stable:neighbourhood_touched(no demand)");
+            rep.count("stable:neighbourhood_touched(must be reported again unless it matches an ignored lint: check_only)");
             continue;
         }
         rep.count("stable:demanded");
@@ -775,6 +781,25 @@ fn gen_edit(r: &mut Rng, text: &str, spans: &[Span]) -> Edit {
                 _ => r.s(gen::MISSPELT).to_string(),
             };
             Edit { at, del: del.min(n.saturating_sub(at)), ins }
+        }
+        8 if !spans.is_empty() => {
+            // phase 4: touch the neighbourhood as little as possible — the case of ONE letter among the two characters
+            // behind (or before) a lint.  The lint then "differs in surrounding words": it must be reported again
+            // unless some ignored lint has exactly its new neighbourhood (check_only)
+            let cs: Vec<char> = text.chars().collect();
+            let sp = *r.pick(spans);
+            let cands: Vec<usize> = [sp.end, sp.end + 1, sp.start.wrapping_sub(1), sp.start.wrapping_sub(2)]
+                .into_iter()
+                .filter(|i| *i < cs.len() && !(sp.start <= *i && *i < sp.end) && cs[*i].is_alphabetic() && (cs[*i].to_lowercase().count() == 1 && cs[*i].to_uppercase().count() == 1))
+                .collect();
+            if cands.is_empty() {
+                Edit { at: n, del: 0, ins: " Done.".into() }
+            } else {
+                let at = *r.pick(&cands);
+                let c = cs[at];
+                let t: String = if c.is_lowercase() { c.to_uppercase().collect() } else { c.to_lowercase().collect() };
+                Edit { at, del: 1, ins: t }
+            }
         }
         _ => {
             let at = r.below(n + 1);
@@ -1110,6 +1135,33 @@ const SWEEP_TEXTS: &[&str] = &[
     "we recieve it and we recieve. Done",
 ];
 
+/// C14_aligned_windows on the implementation: for a lint that flags whole tokens of a document whose tokens tile the text,
+/// the three parts of the neighbourhood have (before_count, |mid|, after_count) tokens — 0 at the edge of the text, 2 next
+/// to a one-character token that is not the first / last token, else 1
+fn aligned_closed_form(rep: &mut Report, env: &mut Env, l: &Lint, doc: &Document, inp: &Value) {
+    let ts = doc.get_tokens();
+    let n = doc.get_source().len();
+    let tiles = !ts.is_empty() && ts[0].span.start == 0 && ts[ts.len() - 1].span.end == n && ts.iter().all(|t| t.span.start < t.span.end) && ts.windows(2).all(|w| w[0].span.end == w[1].span.start);
+    if !tiles {
+        rep.count("aligned:document_not_tiled(no demand)");
+        return;
+    }
+    let (Some(i), Some(j)) = (ts.iter().position(|t| t.span.start == l.span.start), ts.iter().position(|t| t.span.end == l.span.end)) else { return };
+    if j < i {
+        return;
+    }
+    let one = |k: usize| ts[k].span.end - ts[k].span.start == 1;
+    let before = if i == 0 { 0 } else if one(i - 1) && i >= 2 { 2 } else { 1 };
+    let after = if j + 1 == ts.len() { 0 } else if one(j + 1) && j + 2 < ts.len() { 2 } else { 1 };
+    let nb = neighbourhood(l, doc);
+    env.aligned_checked += 1;
+    rep.count(&format!("aligned:before:{before}:after:{after}"));
+    if (nb.0.len(), nb.1.len(), nb.2.len()) != (before, j + 1 - i, after) {
+        env.aligned_broken += 1;
+        rep.fail("aligned_model", format!("lint {:?}: the neighbourhood has ({}, {}, {}) tokens, the closed form of C14_aligned_windows says ({before}, {}, {after})", l.span, nb.0.len(), nb.1.len(), nb.2.len(), j + 1 - i), inp.clone());
+    }
+}
+
 fn synthetic(span: Span) -> Lint {
     Lint { span, lint_kind: LintKind::Style, suggestions: vec![Suggestion::Remove], message: "m".into(), priority: 7 }
 }
@@ -1129,6 +1181,7 @@ fn sweep_spans(rep: &mut Report, env: &mut Env, text: &str, max_len: usize) {
             // only spans a rule could flag: non-empty, from the start of a token to the end of a token
             let aligned = s < e && doc.get_tokens().iter().any(|t| t.span.start == s) && doc.get_tokens().iter().any(|t| t.span.end == e);
             if aligned {
+                aligned_closed_form(rep, env, &l, &doc, &inp);
                 if let Some(h) = real_hash(&l, &doc) {
                     by_hash.entry((h, e - s)).or_default().push(l);
                 }
@@ -1435,13 +1488,14 @@ fn qtag(k: &TokenKind) -> String {
     }
 }
 
-/// Q: ASCII text, span -> context token indices + (span, blanked kind, content) of every hashed token; the
+/// Q: text (any characters: the driver loads the Unicode tables dumped by `dump_unicode`), span -> context token indices + (span, blanked kind, content) of every hashed token; the
 /// implementation's answer is accepted only when the rebuilt context hashes to the value IgnoredLints stored
 fn case_q(rep: &mut Report, env: &mut Env, text: &str, s: usize, e: usize) {
-    if !text.is_ascii() || text.len() > 400 {
+    if text.len() > 400 {
         return;
     }
     rep.eval();
+    rep.count(if text.is_ascii() { "q:ascii_text" } else { "q:non_ascii_text" });
     let cs: Vec<char> = text.chars().collect();
     let line = format!("Q {} | {} {}", cps(&cs), s, e);
     let inp = json!({"kind": "plainq", "text": text, "s": s, "e": e});
@@ -1601,6 +1655,122 @@ fn gen_hashes(r: &mut Rng) -> Vec<u64> {
     v
 }
 
+// ---- phase 4: the Unicode range tables for stream Q (as harness/src/bin/c02.rs dumps them for the c02 driver)
+fn ranges(pred: impl Fn(char) -> bool) -> Vec<(u32, u32)> {
+    let mut out: Vec<(u32, u32)> = vec![];
+    let mut cur: Option<(u32, u32)> = None;
+    for cp in 0..=0x10FFFFu32 {
+        let v = char::from_u32(cp).map(|c| pred(c)).unwrap_or(false);
+        match (v, cur) {
+            (true, Some((a, _))) => cur = Some((a, cp)),
+            (true, None) => cur = Some((cp, cp)),
+            (false, Some(r)) => {
+                out.push(r);
+                cur = None
+            }
+            (false, None) => {}
+        }
+    }
+    if let Some(r) = cur {
+        out.push(r);
+    }
+    out
+}
+
+/// CharExt::is_english_lingual is private: on the one-character text [c] the lexer answers Word exactly when c is lingual
+fn observed_lingual(c: char) -> bool {
+    if !c.is_alphabetic() && !c.is_alphanumeric() {
+        return false;
+    }
+    let t = PlainEnglish.parse(&[c]);
+    t.len() == 1 && matches!(t[0].kind, TokenKind::Word(_))
+}
+
+fn dump_unicode(rep: &mut Report) {
+    let tabs: Vec<(&str, Vec<(u32, u32)>)> = vec![
+        ("ws", ranges(|c| c.is_whitespace())),
+        ("num", ranges(|c| c.is_numeric())),
+        ("alpha", ranges(|c| c.is_alphabetic())),
+        ("ling", ranges(observed_lingual)),
+    ];
+    for (name, rs) in &tabs {
+        let line = format!("U {name} {}", rs.iter().map(|(a, b)| format!("{a}-{b}")).collect::<Vec<_>>().join(" "));
+        rep.case(line.trim(), &format!("U {name} {}", rs.len()));
+    }
+}
+
+/// texts beyond ASCII for stream Q: typographic quotes, combining marks, CJK, non-ASCII digits / spaces / currency
+const UNI_TEXTS: &[&str] = &[
+    "“über” 漢字 e\u{301}.",
+    "naïve café — “an problem” ‘x’ … fin",
+    "١٢٣ ½ Ⅷ 3rd ４２",
+    "a\u{a0}b\u{2003}c\u{2028}d",
+    "日本語。テスト、です",
+    "Ünïcödé’s don’t wörd’s",
+    "é",
+    "€10 ¥3 £5 ₹7 5€",
+    "«guillemets» „unten“ ‹x›",
+    "Ελληνικά и кириллица ß ǅ",
+];
+
+/// phase 4: F13d with lints of REAL rules.  C14_aligned_collision_needs: two token-aligned lints can share a context with
+/// different neighbourhoods only at the edge of the text or next to a one-character token.  Texts built for exactly that
+/// (pairs of one-character tokens between words / at the start / at the end, repeated triggers with single spaces), every
+/// rule on; two lints with the same stored context must have the same neighbourhood.
+fn real_pairs(rep: &mut Report, env: &mut Env, text: &str) {
+    rep.eval();
+    let inp = json!({"kind": "realpair", "text": text});
+    let Some((doc, lints)) = env.lint(text, "plain") else { return };
+    rep.count(&format!("realpair:lints:{}", bucket(lints.len())));
+    let mut by_hash: HashMap<u64, Vec<Lint>> = HashMap::new();
+    for l in &lints {
+        // the premise `aligned` of C14_aligned_collision_needs / _iff: the lint flags whole tokens
+        let al = l.span.start < l.span.end && doc.get_tokens().iter().any(|t| t.span.start == l.span.start) && doc.get_tokens().iter().any(|t| t.span.end == l.span.end);
+        rep.count(if al { "realpair:lint_flags_whole_tokens" } else { "realpair:lint_not_token_aligned" });
+        // C14_rule_lint_spans_token_aligned: the only other span sources of rule files lie inside ONE token
+        if !al && !doc.get_tokens().iter().any(|t| t.span.start <= l.span.start && l.span.end <= t.span.end) {
+            rep.fail("rule_span_shape", format!("lint {:?} ({}) of a real rule neither flags whole tokens nor lies inside one token: not a span source of Tables_spanexprs.rule_lint_sites", l.span, l.message), inp.clone());
+        }
+        if let Some(h) = real_hash(l, &doc) {
+            by_hash.entry(h).or_default().push(l.clone());
+        }
+    }
+    let mut groups: Vec<&Vec<Lint>> = by_hash.values().filter(|g| g.len() > 1).collect();
+    groups.sort_by_key(|g| (g[0].span.start, g[0].span.end));
+    for g in groups {
+        let a = &g[0];
+        for b in &g[1..] {
+            if a == b {
+                continue;
+            }
+            if neighbourhood(a, &doc) != neighbourhood(b, &doc) {
+                rep.count("realpair:same_context_different_neighbourhood");
+                check_only(rep, env, &[(a.clone(), doc.clone())], &[b.clone()], &[], &doc, &inp, "lints of real rules");
+            } else {
+                rep.count("realpair:same_context_same_neighbourhood");
+                rep.nontrivial(&("realpair", text.to_string(), a.span.start, b.span.start));
+            }
+        }
+    }
+}
+
+const ONE_CHAR: &[&str] = &["\"", "'", ",", ".", ";", ":", "!", "?", "-", "(", ")", "/", "&", "$", "%", "#", "@", "*", "+", "=", "“", "”", "’", "…", "—", "a", "I", "1", " ", "\n", "\t"];
+
+fn gen_real_pair_text(r: &mut Rng) -> String {
+    let a = *r.pick(ONE_CHAR);
+    let b = *r.pick(ONE_CHAR);
+    let w1 = *r.pick(&["ab", "teh", "an", "a", "the", "recieve", "I", "its", "there", "10"]);
+    let w2 = *r.pick(&["cd", "teh", "apple", "the", "recieve", "problem", "are", "is", "end"]);
+    match r.below(6) {
+        0 => format!("{w1}{a}{b}{w2}"),
+        1 => format!("{a}{b}{w2} {w1}"),
+        2 => format!("{w1} {w2}{a}{b}"),
+        3 => format!("{w1}{a}{w1}{a}{w1}{b}{w2}"),
+        4 => format!("{w1} {w1} {w1} {w2}{a}{w2}{a}"),
+        _ => format!("{a}{w1}{b}{a}{w1}{b} {w2}"),
+    }
+}
+
 /// what '\n' is for Rust's char methods and for the lexer: the premises of C14_plain_prepend on `u`
 fn monitor_newline(rep: &mut Report, env: &Env) {
     let c = '\n';
@@ -1628,6 +1798,7 @@ fn replay_input(rep: &mut Report, env: &mut Env, v: &Value) {
         "sweep" => sweep_spans(rep, env, v["text"].as_str().unwrap_or(""), v["max_len"].as_u64().unwrap_or(6) as usize),
         "json" => case_j(rep, v["text"].as_str().unwrap_or(""), "replay"),
         "plainq" => case_q(rep, env, v["text"].as_str().unwrap_or(""), v["s"].as_u64().unwrap_or(0) as usize, v["e"].as_u64().unwrap_or(0) as usize),
+        "realpair" => real_pairs(rep, env, v["text"].as_str().unwrap_or("")),
         "prepend" => run_prepend(rep, env, v["p"].as_str().unwrap_or(""), v["d"].as_str().unwrap_or("")),
         "export" => {
             let hs: Vec<u64> = v["hashes"].as_array().map(|a| a.iter().filter_map(|x| x.as_str().and_then(|s| s.parse().ok()).or(x.as_u64())).collect()).unwrap_or_default();
@@ -1656,6 +1827,8 @@ fn main() {
     let mut rep = Report::new(&a.out);
     rep.rule = "scenarios (text, plain|markdown, subset of its lints with all rules on, edit): corpus, then generated texts (paragraphs/documents, triggers next to quotes and brackets, the same misspelling twice with different followers, one-character lints, malformed) x {all, one, random half} x edits {prepend, append, alter 2-5 chars beyond the lint, random splice} x {dictionary unchanged, words of the text added to a user dictionary}. non-trivial = distinct scenario in which >= 1 ignored lint was hidden".into();
     let mut env = Env::new();
+    // the Unicode tables stream Q runs with (first lines of cases.txt: the driver loads them before any Q case)
+    dump_unicode(&mut rep);
     for c in &corpus {
         replay_input(&mut rep, &mut env, c);
     }
@@ -1696,7 +1869,7 @@ fn main() {
         // phase 3: a paragraph with quotation marks put in front of a plain ASCII text
         for _ in 0..a.scale(120, 2500) {
             let p = gen_para(&mut r);
-            let d: String = gen_text(&mut r).chars().filter(|c| c.is_ascii()).take(160).collect();
+            let d: String = gen_text(&mut r).chars().take(160).collect();
             let mut d = d.trim_start_matches('\n').to_string();
             if d.is_empty() {
                 continue;
@@ -1707,8 +1880,13 @@ fn main() {
             }
             run_prepend(&mut rep, &mut env, &p, &d);
         }
-        // phase 3: every span over small ASCII documents through the MODELLED parser
-        for t in SWEEP_TEXTS.iter().filter(|t| t.is_ascii()) {
+        // phase 4: lints of real rules next to one-character tokens / at the edges of the text (where F13d could reach them)
+        for _ in 0..a.scale(400, 12000) {
+            let t = gen_real_pair_text(&mut r);
+            real_pairs(&mut rep, &mut env, &t);
+        }
+        // phase 3/4: every span over small documents (ASCII and beyond) through the MODELLED parser
+        for t in SWEEP_TEXTS.iter().chain(UNI_TEXTS.iter()) {
             let n = t.chars().count();
             for s0 in 0..=n + 1 {
                 for e0 in s0..=(s0 + a.scale(3, 8)).min(n + 2) {
@@ -1743,6 +1921,8 @@ fn main() {
     }
     monitor_newline(&mut rep, &env);
     rep.monitor("plain_prepend: neighbourhood changed although the premises hold", env.prepend_premise_broken);
+    rep.monitor("aligned_windows: token-aligned lints of tiled documents checked against the closed form", env.aligned_checked);
+    rep.monitor("aligned_windows: closed form violated", env.aligned_broken);
     rep.monitor("hash_injective_on: contexts seen", env.seen.len() as u64);
     rep.monitor("hash_injective_on: collisions", env.collisions);
     rep.monitor("context_shape: stored hash != hash of the modelled context", env.mirror_mismatch);
